@@ -16,3 +16,4 @@ pub mod builtins;
 pub mod proc_sx;
 pub mod arrl_sx;
 pub mod recl_sx;
+pub mod procarr_sx;
